@@ -646,8 +646,8 @@ def nondet_sites(prog, f):
                 r = prog.lookup_global(f.module, fn.id)
                 if r and r[0] == "external":
                     dotted = r[1]
-                if r and r[0] == "builtin" and fn.id in ("hash", "id"):
-                    yield (n, f"builtin {fn.id}() depends on the process (hash seed / address)")
+                if r and r[0] == "builtin" and fn.id == "id":
+                    yield (n, "builtin id() depends on the process (object address)")
                 if r and r[0] == "builtin" and fn.id == "set" and False:
                     pass
             elif isinstance(fn, ast.Attribute):
